@@ -62,10 +62,67 @@ def check_case(case, algos):
     return fails, n_eval, n_swap
 
 
+def check_history(h):
+    """several Mpo constructions in ONE process sharing DoF names and sizes but differing in basis parameters
+    (SHO omega / x0), algorithm and model.mpos cache use, each against its own dense reference; the first
+    operator is re-checked (same object and a fresh construction) at the end"""
+    fails = []
+    n = 0
+    kept = []
+
+    def fail(k, algo, kind, detail, where=None):
+        fails.append({"id": h["id"], "algo": algo, "stage": "history", "step": k, "kind": kind, "detail": detail, "where": where})
+    for k, case in enumerate(h["steps"]):
+        algo = case["algo"]
+        tol = TOL_QR if algo.startswith("qr") else TOL
+        try:
+            basis, terms, offset = L.build(case)
+            ref = L.ref_dense(case)
+            model = Model(basis, terms if case.get("ham") else [])
+            if case.get("via_cache"):
+                mk = lambda m: [Mpo(m, terms, offset=offset, algo=algo)]
+                mpo = model.get_mpos("c01", mk)[0]
+                if model.get_mpos("c01", mk)[0] is not mpo:
+                    fail(k, algo, "mismatch", "model.get_mpos returned a different object on the second call")
+            else:
+                mpo = Mpo(model, terms, offset=offset, algo=algo)
+            err = L.rel_err(mpo.todense(), ref)
+            n += 1
+        except Exception as e:
+            fail(k, algo, "exception", "%s: %s" % (type(e).__name__, str(e)[:200]), traceback.format_exc()[-500:])
+            continue
+        if not err <= tol:
+            fail(k, algo, "mismatch", err)
+        kept.append((mpo, ref, case, tol))
+    if kept:
+        mpo, ref, case, tol = kept[0]
+        try:
+            err = L.rel_err(mpo.todense(), ref)                       # the first operator was not disturbed
+            if not err <= tol:
+                fail(-1, case["algo"], "mismatch", "first operator changed by later constructions: %s" % err)
+            basis, terms, offset = L.build(case)                      # and a fresh construction still agrees
+            err = L.rel_err(Mpo(Model(basis, []), terms, offset=offset, algo=case["algo"]).todense(), ref)
+            n += 2
+            if not err <= tol:
+                fail(-1, case["algo"], "mismatch", "re-construction of the first operator at the end differs: %s" % err)
+        except Exception as e:
+            fail(-1, case["algo"], "exception", "%s: %s" % (type(e).__name__, str(e)[:200]), traceback.format_exc()[-500:])
+    return fails, n
+
+
 def main():
     payload = json.load(sys.stdin)
     fails = []
     ne = ns = 0
+    nh = 0
+    for h in payload.get("histories", []):
+        try:
+            f, a = check_history(h)
+            fails += f
+            nh += a
+        except Exception:
+            fails.append({"id": h["id"], "algo": None, "stage": "harness", "kind": "exception",
+                          "detail": traceback.format_exc()[-600:]})
     for case in payload["cases"]:
         try:
             f, a, b = check_case(case, payload["algos"])
@@ -75,7 +132,7 @@ def main():
         except Exception:
             fails.append({"id": case["id"], "algo": None, "stage": "harness", "kind": "exception",
                           "detail": traceback.format_exc()[-600:]})
-    print("RESULT " + json.dumps({"fails": fails, "n_construct": ne, "n_swap": ns}))
+    print("RESULT " + json.dumps({"fails": fails, "n_construct": ne, "n_swap": ns, "n_history": nh}))
 
 
 if __name__ == "__main__":
